@@ -8,6 +8,7 @@ import SxVerif.Spec.Faithful
 import SxVerif.Proofs.Frame
 import SxVerif.Generated.Wiring
 import SxVerif.Proofs.CaptureSource
+import SxVerif.Generated.Constants
 
 namespace SxVerif.C06
 open SxVerif.Frame SxVerif.Proc SxVerif.Spec.Frame
@@ -85,5 +86,14 @@ theorem capture_source_closed_stays {s t : SxVerif.CaptureSource.Sys} (hs : SxVe
     `afpacket.Source.ReadPacketData` runs the program that `SetBPFFilter` attached on each frame once more, in user
     space, and skips what it rejects.  `C03_wire` models exactly this: filter, then processor, for every frame. -/
 theorem capture_filter_applied_to_every_frame : SxVerif.Generated.userSpaceFilter = true := by decide
+
+
+/-- (T) the engine runs of a chunked port scan (one per 200 port ranges, each with its own socket and receiver
+    goroutine) share ONE scan method, and the receiver of a finished run is not waited for: it may still be decoding
+    its last frame when the next run's receiver decodes its first.  `startPortScanEngine` hands every run the method
+    behind one mutex (`lockedPacketMethod`: lock, deferred unlock, the method's own `ProcessPacketData`), so the
+    processors run one frame at a time — which is what `C06_history` assumes of a history of frames (D31; dynamic side:
+    the reply-flood run of `e2e` from a race-enabled build of sx). -/
+theorem chunk_receivers_serialised : SxVerif.Generated.chunksShareLockedMethod = true := by decide
 
 end SxVerif.C06
